@@ -857,6 +857,9 @@ def run_multi(prop, tier):
 
 
 def run(prop, tier):
+    # every second case goes through the gRPC front end (frontend.GRPCService, requests and responses passed through the
+    # protobuf wire format), the others through the msgpack-RPC DataService: the property does not depend on the transport
+    os.environ.setdefault("VERIF_FRONT", "mix")
     if prop in ("C11", "C12"):
         return run_single(prop, tier)
     return run_multi(prop, tier)
